@@ -95,6 +95,37 @@ theorem rot3_isometry (a b d c s x y z : Rat) (hu : a * a + b * b + d * d = 1) (
   linear_combination (-((a * x + b * y + d * z) ^ 2 - (a * a + b * b + d * d) * (x * x + y * y + z * z))) * hcs +
     (-((a * x + b * y + d * z) ^ 2 - (a * a + b * b + d * d) * (x * x + y * y + z * z)) * (1 - c) ^ 2) * hu
 
+/-- **The 3-D matrix is Rodrigues' rotation** about the unit axis `k = (a, b, d)` by the angle with
+cosine `c` and sine `s`: `R p = c·p + s·(k × p) + (1 - c)(k·p)·k`, for *every* point.  This determines
+the matrix entirely (it is a statement about all `p`), and in particular the sense of rotation: the
+`s`-term is `+ k × p` (right-handed about `k`), which neither the identity nor the rotation by the
+opposite angle satisfies. -/
+theorem rot3_rodrigues (a b d c s x y z : Rat) (hu : a * a + b * b + d * d = 1) :
+    linPt (rot3 a b d c s) [x, y, z] =
+      [c * x + s * (b * z - d * y) + (1 - c) * (a * x + b * y + d * z) * a,
+       c * y + s * (d * x - a * z) + (1 - c) * (a * x + b * y + d * z) * b,
+       c * z + s * (a * y - b * x) + (1 - c) * (a * x + b * y + d * z) * d] := by
+  simp only [linPt, rot3, dot, ratSum, List.map_cons, List.map_nil, List.zipWith_cons_cons, List.zipWith_nil_right,
+    List.zipWith_nil_left, List.cons.injEq, and_true]
+  refine ⟨?_, ?_, ?_⟩
+  · linear_combination (-(1 - c) * x) * hu
+  · linear_combination (-(1 - c) * y) * hu
+  · linear_combination (-(1 - c) * z) * hu
+
+/-- **A vector perpendicular to the axis is turned by the angle `(c, s)` in the plane perpendicular
+to the axis, counter-clockwise seen from the tip of the axis**: `R p = c·p + s·(k × p)`.  Together with
+`rot3_axis` this pins the matrix down (the audit's gap: identity / opposite angle are excluded as
+soon as `s ≠ 0` and `p ≠ 0`, see `rot3_perp_sense`). -/
+theorem rot3_perp (a b d c s x y z : Rat) (hu : a * a + b * b + d * d = 1) (hp : a * x + b * y + d * z = 0) :
+    linPt (rot3 a b d c s) [x, y, z] =
+      [c * x + s * (b * z - d * y), c * y + s * (d * x - a * z), c * z + s * (a * y - b * x)] := by
+  rw [rot3_rodrigues a b d c s x y z hu, hp]
+  simp
+
+/-- the quarter turn about the z-axis sends x̂ to ŷ (not to −ŷ): the sense of rotation, concretely -/
+theorem rot3_perp_sense : linPt (rot3 0 0 1 0 1) [1, 0, 0] = [0, 1, 0] ∧ linPt (rot3 0 0 1 0 (-1)) [1, 0, 0] = [0, -1, 0] := by
+  decide +kernel
+
 /-- `PolarGrid.rotate` (repaired): the angular coordinate of every point grows by the angle. -/
 theorem points_polar_rotate (g : Grid) (α : Rat) (h2 : g.coords.ndim = 2) :
     (g.polarRotate α).coords.points = g.coords.points.map (shiftPt [0, α]) :=
@@ -122,6 +153,30 @@ theorem weights_scale (g g' : Grid) (s : ScaleArg) (wl : List Rat) (hc : g.syste
     rw [Grid.getWeights_stored _ hne]
     simp only [Option.map_some, Option.some.injEq, Coords.size_scale _ _ hl, Weights.toList_mul, hw,
       weightFactor_eq_jac]
+
+/-- **`PolarGrid.scale` multiplies every cell weight by `|k|²`** (the Jacobian of `(r, θ) ↦ (k r, θ)`
+in the physical plane), whatever the weights were — explicit, cached, or the scalar 1 a polar grid
+gets when it has none. -/
+theorem weights_scale_polar (g g' : Grid) (k : Rat) (wl : List Rat) (hp : g.system = .polar) (h2 : g.coords.ndim = 2)
+    (h : g.scale (.scalar k) = some g') (hw : g.weightList = some wl) :
+    g'.weightList = some (wl.map (· * absQ k ^ 2)) := by
+  simp only [Grid.scale, hp] at h
+  cases hgw : g.getWeights with
+  | none => simp [hgw] at h
+  | some w =>
+    simp only [hgw, Option.map_some, Option.some.injEq] at h
+    subst h
+    have hne : w.mul (absQ k ^ g.coords.ndim) ≠ .none := by
+      have := Grid.getWeights_ne_none g w hgw
+      cases w <;> simp_all [Weights.mul]
+    simp only [Grid.weightList, hgw, Option.map_some, Option.some.injEq] at hw
+    simp only [Grid.weightList]
+    rw [Grid.getWeights_stored _ hne]
+    simp only [Option.map_some, Option.some.injEq, Coords.size_scale g.coords [k, 1] (by simp [h2]), Weights.toList_mul, hw, h2]
+
+example : ∃ g g' : Grid, g.system = .polar ∧ g.coords.ndim = 2 ∧ g.scale (.scalar (-3 / 2)) = some g' ∧
+    g'.weightList = some [9 / 4, 9 / 4] :=
+  ⟨⟨.polar, .separated [[1, 2], [0]], .none⟩, _, rfl, rfl, rfl, by decide +kernel⟩
 
 /-- **History independence of scaling**: the automatic weights of the scaled coordinates are the
 scaled automatic weights (regular and separated grids), so it does not matter whether the weights
@@ -190,6 +245,31 @@ theorem sub_super_id (g : Grid) (a : List RegAxis) (k : List Nat) (hg : g.coords
       simp only [List.zipWith_cons_cons, List.cons.injEq]
       exact ⟨sub_super_axis x (hk x (by simp)) y, ih a (by simpa using hl) (fun z hz => hk z (by simp [hz]))⟩
 
+/-- **`make_uniform_grid(…, has_center=True)` contains its centre** on every axis, for odd and even
+numbers of points alike (any extent, any centre, any number of dimensions). -/
+theorem uniform_has_center (dims : List Nat) (extent center : List Rat) (hl : extent.length = dims.length)
+    (hc : center.length = dims.length) (hn : ∀ n ∈ dims, 1 ≤ n) :
+    center ∈ (makeUniformGrid dims extent center true).coords.points := by
+  simp only [makeUniformGrid, Coords.points]
+  apply tensor_mem
+  induction dims generalizing extent center with
+  | nil =>
+    cases center with
+    | nil => simp
+    | cons _ _ => simp at hc
+  | cons n dims ih =>
+    cases extent with
+    | nil => simp at hl
+    | cons e extent =>
+      cases center with
+      | nil => simp at hc
+      | cons c center =>
+        simp only [List.zip_cons_cons, List.zipWith_cons_cons, List.map_cons, List.forall₂_cons]
+        exact ⟨uniform_center_mem n e c (hn n (by simp)),
+          ih extent center (by simpa using hl) (by simpa using hc) (fun m hm => hn m (by simp [hm]))⟩
+
+example : [(1 / 2 : Rat), -5 / 4] ∈ (makeUniformGrid [4, 5] [1, 5 / 2] [1 / 2, -5 / 4] true).coords.points := by decide +kernel
+
 /-- a regular grid whose axes are `delta·(-n/2 + (n mod 2)/2) + k·delta` contains the origin, for
 odd and for even `n ≥ 1` alike -/
 theorem centred_has_origin (l : List (Rat × Nat)) (h : ∀ x ∈ l, 1 ≤ x.2) :
@@ -230,6 +310,68 @@ theorem focal_from_pupil_has_origin (tau s : Rat) (a1 a2 : RegAxis) (q1 q2 fov1 
   simp only [List.map_cons, List.map_nil, List.length_cons, List.length_nil] at this
   refine List.mem_map.mpr ⟨[0, 0], ?_, by simp [scalePt]⟩
   simpa [fftAxis, centredAxis] using this
+
+/-! ## Compositions: the single-step theorems chain
+
+`WF`, the dimension and the kind are preserved by every operation (`Coords.WF_scale/_shift/_reverse/
+_linmap`, `Coords.ndim_*`, `Coords.kind_*` in Lemmas/GridGeom.lean), so the hypotheses of one step are
+available after another. -/
+
+/-- the hypotheses of the single-step theorems survive every operation -/
+theorem wf_preserved (c : Coords) (f b : List Rat) (M : List (List Rat)) (hf : f.length = c.ndim) (hb : b.length = c.ndim)
+    (hM : M ≠ []) (hw : c.WF) :
+    (c.scale f).WF ∧ (c.shift b).WF ∧ c.reverse.WF ∧ (c.linmap M).WF ∧
+    (c.scale f).ndim = c.ndim ∧ (c.shift b).ndim = c.ndim ∧ c.reverse.ndim = c.ndim ∧ (c.linmap M).ndim = M.length :=
+  ⟨Coords.WF_scale c f hf hw, Coords.WF_shift c b hb hw, Coords.WF_reverse c hw, Coords.WF_linmap c M hM,
+    Coords.ndim_scale c f hf, Coords.ndim_shift c b hb, Coords.ndim_reverse c, Coords.ndim_linmap c M⟩
+
+/-- **scale → shift → reverse → rotate** on any well-formed coordinates: the points are the images under
+the composed affine map, listed in the reversed order. -/
+theorem points_scale_shift_reverse_rotate (c : Coords) (f b : List Rat) (M : List (List Rat)) (hf : f.length = c.ndim)
+    (hb : b.length = c.ndim) (hM : M ≠ []) (hw : c.WF) :
+    ((((c.scale f).shift b).reverse).linmap M).points =
+      (c.points.map (linPt M ∘ shiftPt b ∘ scalePt f)).reverse := by
+  have h1 := Coords.WF_scale c f hf hw
+  have h2 := Coords.WF_shift (c.scale f) b (by rw [Coords.ndim_scale c f hf]; exact hb) h1
+  rw [Coords.points_linmap _ M hM, Coords.points_reverse _ h2,
+    Coords.points_shift _ b (by rw [Coords.ndim_scale c f hf]; exact hb), Coords.points_scale c f hf]
+  simp [List.map_reverse, List.map_map]
+
+/-- **The weights of a scaled regular grid sum to the scaled area** `Π dims_i·|δ_i| · Π|f_i|`
+(`regular_weights_sum` composed with `weights_scale`), scalar or per-axis factors of either sign. -/
+theorem regular_weights_sum_scaled (a : List RegAxis) (s : ScaleArg) (g' : Grid)
+    (hl : (s.factors a.length).length = a.length)
+    (h : (Grid.mk .cartesian (.regular a) .none).scale s = some g') :
+    g'.weightList.map ratSum =
+      some (ratProd (a.map fun x => (x.dim : Rat) * absQ x.delta) * jac (s.factors a.length)) := by
+  have h0 := regular_weights_sum a
+  cases hw : (Grid.mk .cartesian (.regular a) .none).weightList with
+  | none => simp [hw] at h0
+  | some wl =>
+    rw [hw] at h0
+    simp only [Option.map_some, Option.some.injEq] at h0
+    have := weights_scale _ g' s wl rfl (by simpa [Coords.ndim] using hl) h hw
+    simp only [Coords.ndim] at this
+    rw [this]
+    simp only [Option.map_some, Option.some.injEq, ratSum_map_mul, h0]
+
+/-- … and reversing afterwards keeps that sum (the weights are only re-ordered). -/
+theorem weights_sum_reverse (g : Grid) : g.reverse.weightList.map ratSum = g.weightList.map ratSum := by
+  rw [weights_reverse]
+  cases g.weightList with
+  | none => rfl
+  | some wl =>
+    simp only [Option.map_some, Option.some.injEq]
+    induction wl with
+    | nil => rfl
+    | cons x xs ih => simp only [List.reverse_cons, ratSum_append, ratSum, ih]; ring
+
+example : ∃ g', (Grid.mk .cartesian (.regular [⟨1 / 2, 3, 0⟩, ⟨-1, 2, 1⟩]) .none).scale (.vector [-2, 3]) = some g' := ⟨_, rfl⟩
+
+/-- the hypotheses of `focal_from_pupil_has_origin` are satisfiable (355/113·2 stands for `2π`) -/
+example : 1 ≤ (fftAxis (710 / 113) ⟨1 / 8, 8, -7 / 16⟩ 2 (3 / 4) 0).dim ∧
+    1 ≤ (fftAxis (710 / 113) ⟨1 / 4, 5, -1 / 2⟩ (3 / 2) 1 0).dim := by decide +kernel
+example : (fftAxis (710 / 113) ⟨1 / 8, 8, -7 / 16⟩ 2 (3 / 4) 0).dim = 12 := by decide +kernel
 
 /-! ## Coordinate-system conversion (over `ℝ`) -/
 
